@@ -36,7 +36,7 @@ def gen_cases(ctx):
         order = list(range(n))
         rng.shuffle(order)
         ad = rng.choice([0, 0, 1, 2])
-        cid = rng.choice(["v", "crv", "eur_ois", "x1", "n"])
+        cid = rng.choice(["v", "crv", "eur_ois", "x1", "n", "usd_sofr\n", "v\r\n", " crv ", "a\tb", ""])
         base = rng.choice([None, 100.0, rng.uniform(50, 300)])
         # node values: floats (the property's case), or user-supplied duals (own names / shared names)
         style = "floats"
